@@ -117,6 +117,23 @@ impl<'s, W: FmtWrite> Stringifier<'s, W> {
         Ok(())
     }
 
+    /// Write a `src` path, which the parser stores with one `suffix` stripped.
+    ///
+    /// A path that still ends with the suffix (`a.wxml.wxml`) needs it again,
+    /// otherwise the printed text would name another file.
+    fn write_src_quoted(&mut self, n: &StrName, suffix: &str) -> FmtResult {
+        if n.name.ends_with(suffix) {
+            let mut name = n.name.clone();
+            name.push_str(suffix);
+            let n = StrName {
+                name,
+                location: n.location(),
+            };
+            return self.write_str_name_quoted(&n);
+        }
+        self.write_str_name_quoted(n)
+    }
+
     fn write_ident(&mut self, n: &Ident, need_name: bool) -> FmtResult {
         self.write_token(&n.name, need_name.then_some(&n.name), &n.location())
     }
